@@ -123,18 +123,38 @@ def value_for(dtype, default=False):
 
 
 # ---- one library call, compared row by row ------------------------------------------------------
+class ArgumentMutated(Exception):
+    """The call changed one of the tensors handed to it (the caller's data)."""
+
+
 def call_lib(part, mode, value, x, rows, via, no_lens=False):
     lens = torch.tensor([r[0] for r in rows], dtype=torch.long)
+    x0, lens0 = x.clone(), lens.clone()
     if part == "pv":
         pad = torch.tensor([[r[1] for r in rows], [r[2] for r in rows]], dtype=torch.long)
+        pad0 = pad.clone()
         if via == "module":
-            return M.PadVariable(mode, value)(x, lens, pad), None
-        return F.pad_variable(x, lens, pad, mode, value), None
-    slices = torch.tensor([[r[1], r[2]] for r in rows], dtype=torch.long)
-    lens_arg = None if no_lens else lens
-    if via == "module":
-        return M.ChunkBySlices(mode, value)(x, slices, lens_arg)
-    return F.chunk_by_slices(x, slices, lens_arg, mode, value)
+            res = M.PadVariable(mode, value)(x, lens, pad), None
+        else:
+            res = F.pad_variable(x, lens, pad, mode, value), None
+        args = (("x", x, x0), ("lens", lens, lens0), ("pad", pad, pad0))
+    else:
+        if (len(rows) + rows[0][1]) % 2:
+            slices = torch.tensor([[r[1], r[2]] for r in rows], dtype=torch.long)
+        else:  # the same bounds laid out column-major, as torch.stack([starts, ends]).T gives them
+            slices = torch.stack([torch.tensor([r[1] for r in rows], dtype=torch.long),
+                                  torch.tensor([r[2] for r in rows], dtype=torch.long)]).T
+        slices0 = slices.clone()
+        lens_arg = None if no_lens else lens
+        if via == "module":
+            res = M.ChunkBySlices(mode, value)(x, slices, lens_arg)
+        else:
+            res = F.chunk_by_slices(x, slices, lens_arg, mode, value)
+        args = (("x", x, x0), ("lens", lens, lens0), ("slices", slices, slices0))
+    for name, now, before in args:
+        if not torch.equal(now, before):
+            raise ArgumentMutated(f"{name} changed from {before.tolist()} to {now.tolist()}")
+    return res
 
 
 def expected_row(part, mode, value, xrow, rest, cfg):
@@ -187,8 +207,8 @@ def evaluate(ctx, part, mode, value, x, rows, exp, via, seed, salt, no_lens=Fals
     except Exception as e:  # every enumerated input is legal: raising is a violation
         if record:
             ctx.violation(
-                dict({"api": API[part], "symptom": "raises", "mode": mode, "type": type(e).__name__},
-                     **sig_flags(part, T, rows)),
+                dict({"api": API[part], "symptom": "argument-modified-in-place" if isinstance(e, ArgumentMutated)
+                      else "raises", "mode": mode, "type": type(e).__name__}, **sig_flags(part, T, rows)),
                 make_case(part, mode, value, x, rows, via, seed, salt, no_lens),
                 {"error": str(e)[-300:]},
             )
